@@ -39,7 +39,7 @@ def queue_of(fn, node):
 
 def analyse(ctx, replace=None, only=None):
     R = ctx.R
-    P = ctx.program([FILE, "source/task_scheduler.c"], "ship", replace=replace)
+    P = ctx.program([FILE, "source/task_scheduler.c", "source/ref_count.c"], "ship", replace=replace)
     fns = {f.name: f for f in P.functions_in("thread_scheduler.c")}
     need = ["s_destroy_callback", "s_thread_should_wake", "s_thread_fn", "aws_thread_scheduler_new",
             "aws_thread_scheduler_schedule_future", "aws_thread_scheduler_cancel_task"]
@@ -115,6 +115,15 @@ def analyse(ctx, replace=None, only=None):
         R.check(not leaked, "BALANCE", "no-lock-at-exit:%s" % name, "%s()" % name, "every path returns with the mutex released", "returns while holding %s" % sorted(leaked))
     R.require(n_acc >= 9, "only %d guarded queue accesses found (confirmed by reading: >= 9)" % n_acc)
 
+    # unlinking a node found in a hand-over queue is a mutation of that queue: under the mutex as well
+    for name, f in sorted(fns.items()):
+        if name in ("s_thread_fn", "s_destroy_callback", "aws_thread_scheduler_new") or name in helpers:
+            continue
+        ts = RU.lockset(f)
+        for e in f.calls({"aws_linked_list_remove"} | LIST_MUT_NODE):
+            held = RU.held_at(ts, e) or set()
+            R.check(any(h.endswith("thread_data.mutex") for h in held), "LOCK", "%s:%s" % (name, e.node["callee"]), where(f, e), "hand-over queue node unlinked with thread_data.mutex held",
+                    "%s unlinks / links a hand-over queue node without holding thread_data.mutex (held: %s): the scheduler thread can take the queue in between and re-initialise the node" % (name, sorted(held)))
     # ------------------------------------------------------------------ CONFINE (inner scheduler)
     n_inner = 0
     for name, f in sorted(fns.items()):
@@ -287,6 +296,31 @@ def analyse(ctx, replace=None, only=None):
         R.check(not later, "SHUTDOWN-ORDER", "nothing-after-release", where(d, rel), "release of the scheduler object is the last action",
                 "calls follow the release of the scheduler object: %s" % [x.node.get("callee") for x in later][:3])
 
+    # the final release: the count is decremented by ONE atomic read-modify-write whose result alone decides who runs the
+    # destroy callback (a separate load / store lets two releasers both see "not last")
+    rc = P.fn("aws_ref_count_release")
+    if R.require(rc is not None, "aws_ref_count_release not found (source/ref_count.c not analysed)"):
+        R.fn(rc)
+        ops = [e for e in rc.all_events() if e.kind == "call" and (e.node.get("callee") or "").startswith("aws_atomic_")]
+        rmw = [e for e in ops if e.node["callee"].startswith("aws_atomic_fetch_sub")]
+        oz = [e for e in rc.indirect_calls() if RU.indirect_via(rc, e.node) == ("aws_ref_count", "on_zero_fn")]
+        okr = len(ops) == 1 and len(rmw) == 1 and len(oz) == 1
+        if okr:
+            tainted, et = RU.derives(rc, lambda n: n.get("id") == rmw[0].node["id"] and n["k"] in ("call", "ref"))
+            gs = [RU.cmp_norm(rc, c_, p_) for c_, p_, b_ in RU.guards(rc, oz[0])]
+            okr = any(g_ and g_[1] == "==" and g_[2] is not None and rc.is_const(g_[2]) == 1 and et(g_[0]) for g_ in gs) and len([g_ for g_ in gs if g_]) == 1
+        R.check(okr, "SHUTDOWN-ORDER", "release:single-atomic-decrement-decides", "aws_ref_count_release()", "one fetch_sub; the destroy callback runs exactly when it returned 1",
+                "aws_ref_count_release uses %s and does not decide `last reference` from the result of a single fetch_sub: two threads releasing the last two references can both skip the destroy callback (the scheduler thread is never stopped, pending tasks never cancelled)" % [e.node["callee"] for e in ops])
+    # one pass of the scheduler thread: hand-over, then the cancellation records, then run-all (a task cancelled before
+    # the pass that finds it due is cancelled, not run)
+    tf = fns["s_thread_fn"]
+    runs = tf.calls("aws_task_scheduler_run_all")
+    cemp = [e for e in tf.calls("aws_linked_list_empty") if "cancel" in argstr(tf, e.node, 0)]
+    if R.require(len(runs) >= 1 and cemp, "s_thread_fn: run-all / cancellation loop not found"):
+        domt = dominators(tf)
+        R.check(len(runs) == 1 and any(ev_dominates(tf, e, runs[0], domt) for e in cemp), "SHUTDOWN-ORDER", "pass:cancellations-before-run-all", where(tf, runs[0]),
+                "within a pass run-all comes after the loop over the pass's cancellation records",
+                "run-all is (also) called before the pass's cancellation records are processed: a task cancelled while pending, whose time has come, is run instead of cancelled")
     # ------------------------------------------------------------------ DRAIN
     drain(R, d, fns, after_calls=chain[2][1], before_calls=chain[5][1])
     batch_lists(R, fns["s_thread_fn"])
@@ -618,6 +652,14 @@ def noblock(R, fns, helpers=None):
 
 
 MUTANTS = [
+    {"name": "release-fast-path-load-then-store", "file": "source/ref_count.c", "expect": "SHUTDOWN-ORDER",
+     "old": "    size_t old_value = aws_atomic_fetch_sub(&ref_count->ref_count, 1);\n    AWS_ASSERT(old_value > 0 && \"refcount has gone negative\");\n    if (old_value == 1) {\n        ref_count->on_zero_fn(ref_count->object);\n    }",
+     "new": "    if (aws_atomic_load_int(&ref_count->ref_count) == 1) {\n        aws_atomic_store_int(&ref_count->ref_count, 0);\n        ref_count->on_zero_fn(ref_count->object);\n        return 0;\n    }\n    size_t old_value = aws_atomic_fetch_sub(&ref_count->ref_count, 1);"},
+    {"name": "unlink-after-unlock", "file": FILE, "expect": "LOCK",
+     "old": "    if (found_task) {\n        aws_linked_list_remove(&found_task->node);\n        cancellation_node->removed_from_scheduling_queue = true;\n    }\n\n    cancellation_node->task_to_cancel = task;\n\n    /* regardless put it in the cancel queue so the thread can call the task with canceled status. */\n    aws_linked_list_push_back(&scheduler->thread_data.cancel_queue, &cancellation_node->node);\n    AWS_FATAL_ASSERT(!aws_mutex_unlock(&scheduler->thread_data.mutex) && \"mutex unlock failed!\");",
+     "new": "    if (found_task) {\n        cancellation_node->removed_from_scheduling_queue = true;\n    }\n\n    cancellation_node->task_to_cancel = task;\n\n    /* regardless put it in the cancel queue so the thread can call the task with canceled status. */\n    aws_linked_list_push_back(&scheduler->thread_data.cancel_queue, &cancellation_node->node);\n    AWS_FATAL_ASSERT(!aws_mutex_unlock(&scheduler->thread_data.mutex) && \"mutex unlock failed!\");\n    if (found_task) {\n        aws_linked_list_remove(&found_task->node);\n    }"},
+    {"name": "run-all-before-cancellations", "file": FILE, "expect": "SHUTDOWN-ORDER",
+     "old": "        /* now cancel the tasks. */", "new": "        { uint64_t early_time = 0; aws_high_res_clock_get_ticks(&early_time); aws_task_scheduler_run_all(&scheduler->scheduler, early_time); }\n        /* now cancel the tasks. */"},
     {"name": "record-cancels-a-task-that-already-ran", "file": FILE, "expect": "CANCEL-NODE",
      "old": "    if (cancellation_node->removed_from_scheduling_queue || task->node.next != NULL || task->abi_extension.scheduled) {\n        aws_task_scheduler_cancel_task(&scheduler->scheduler, task);\n    }",
      "new": "    aws_task_scheduler_cancel_task(&scheduler->scheduler, task);"},
